@@ -4,6 +4,7 @@ package main
 import (
 	"verifharness/rt"
 
+	_ "verifharness/mon/c02"
 	_ "verifharness/mon/c04"
 	_ "verifharness/mon/c06"
 	_ "verifharness/mon/c07"
@@ -11,6 +12,8 @@ import (
 	_ "verifharness/mon/c09"
 	_ "verifharness/mon/c11"
 	_ "verifharness/mon/c12"
+	_ "verifharness/mon/c16"
+	_ "verifharness/mon/c19"
 )
 
 func main() { rt.Main() }
